@@ -1389,6 +1389,15 @@ func genC20(r *R, n int, tier string, out *Out) {
 			return pickOf(r, []string{"1", "true", "null", `"s"`, "2.5", `"a\nb"`, "-7", `"x y"`, "\"ab\ncd\"", "\"l1\nl2\nl3\"", "\"\nx\"", "\"tab\there\"", "\"a\\\nb\"", "\"\\\n\""})
 		}
 		build = func(depth int, obj bool) {
+			if depth < 3 && r.chance(0.18) {
+				// an EMPTY nested container whose brackets are apart: several blanks and line breaks between them
+				open_, close_ := "[", "]"
+				if obj {
+					open_, close_ = "{", "}"
+				}
+				toks = append(toks, open_, nl()+pickOf(r, []string{"", "\n", "\n\n ", " \n\t\n"}), close_)
+				return
+			}
 			if obj {
 				toks = append(toks, "{", nl())
 				m := 1 + r.Intn(3)
